@@ -24,9 +24,18 @@ thread_local! {
 
 /// run `f` with this thread's raw lock operations recorded instead of simulated
 pub fn recording<T>(f: impl FnOnce() -> T) -> (T, Vec<(usize, RawOp)>) {
+    // (recording ends even if `f` unwinds)
+    struct Off;
+    impl Drop for Off {
+        fn drop(&mut self) {
+            RECORD.with(|r| *r.borrow_mut() = None);
+        }
+    }
     RECORD.with(|r| *r.borrow_mut() = Some(Vec::new()));
+    let off = Off;
     let out = f();
     let seq = RECORD.with(|r| r.borrow_mut().take()).unwrap_or_default();
+    drop(off);
     (out, seq)
 }
 
